@@ -127,6 +127,73 @@ def gen_raw():
             yield "raw-after-let", "let x = " + s
 
 
+def gen_long_flat():
+    """Flat (not nested) constructs grown to the 4 KiB the property names: long operator chains, lists,
+    tuples, argument lists, selector chains, strings, comments, templates, many statements."""
+    def upto(prefix, unit, suffix, limit=4096):
+        n = max(1, (limit - len(prefix) - len(suffix)) // len(unit))
+        return prefix + unit * n + suffix
+    yield "long-add-chain", upto("let x = 1", " + 1", ";")
+    yield "long-mixed-chain", upto("let x = 1", " + 2 * 3 - 4", ";")
+    yield "long-bool-chain", upto("let x = true", " && true || false", ";")
+    yield "long-compare-chain", upto("let x = 1", " == 1", ";")
+    yield "long-string-concat", upto('let x = "a"', ' + "b"', ";")
+    yield "long-list-concat", upto("let x = [1]", " + [2]", ";")
+    yield "long-list", upto("let x = [", "1, ", "];")
+    yield "long-tuple", "let x = {" + "".join("f%d = %d, " % (i, i) for i in range(400)) + "};"
+    yield "long-tuple-dup-fields", upto("let x = {", "a = 1, ", "};")
+    yield "long-arglist", "let f = func (" + ", ".join("a%d" % i for i in range(300)) + ") => a0;\nlet x = f(" + ", ".join("1" for _ in range(300)) + ");"
+    yield "long-selector-chain", "let t = {a = 1};\n" + upto("let x = t", ".a", ";")
+    yield "long-copy-chain", "let t = {a = 1};\n" + "".join("let t%d = t{b%d = %d};\n" % (i, i, i) for i in range(150))
+    yield "long-statements", "".join("let v%d = %d;\n" % (i, i) for i in range(330))
+    yield "long-dependent-statements", "let v0 = 0;\n" + "".join("let v%d = v%d + 1;\n" % (i + 1, i) for i in range(250))
+    yield "long-string", 'let x = "' + "a" * 4000 + '";'
+    yield "long-string-escapes", upto('let x = "', "\\\\\\n", '";')
+    yield "long-string-non-ascii", 'let x = "' + "é😀" * 600 + '";'
+    yield "long-comment", "// " + "c" * 4000 + "\nlet x = 1;"
+    yield "long-many-comments", upto("", "// c\n", "let x = 1;")
+    yield "long-template", upto('let x = "', "@ ", '" % (' + ", ".join("1" for _ in range(50)) + ");")
+    yield "long-template-matching", 'let x = "' + "@" * 500 + '" % (' + ", ".join("1" for _ in range(500)) + ");"
+    yield "long-template-expr", upto('let x = "', "@{item} ", '" % 1;')
+    yield "long-select", "let x = select (\"f399\", 0) => {" + "".join("f%d = %d, " % (i, i) for i in range(400)) + "};"
+    yield "long-range", "let x = 0:4000;"
+    yield "long-map-reduce", "let x = reduce(func (acc, i) => acc + i, 0, map(func (i) => i * 2, 0:3000));"
+    yield "long-whitespace", "let x =" + " " * 4000 + "1;"
+    yield "long-newlines", "let x =" + "\n" * 4000 + "1;"
+    yield "long-ident", "let " + "a" * 4000 + " = 1;"
+    yield "long-number", "let x = " + "9" * 4000 + ";"
+    yield "long-float", "let x = 1." + "0" * 4000 + ";"
+    yield "long-operators-garbage", upto("", "+ - * / ", "")
+    yield "long-braces-unbalanced", upto("let x = ", "} ", ";")
+    yield "long-semicolons", ";" * 4000
+    yield "long-assert", "".join("assert {ok = true, desc = \"d%d\"};\n" % i for i in range(100))
+    yield "long-constraint-alternation", "let x :: " + " | ".join(str(i) for i in range(600)) + " = 5;"
+
+
+def cli_long_flat(cases):
+    """The in-process harness runs on a 256 MiB stack; the real binary does not. Every long flat input is
+    also given to `ucg build` and `ucg fmt` (default stack): exit status must be 0 or 1."""
+    import shutil
+    import tempfile
+    viol = []
+    hist = {}
+    d = tempfile.mkdtemp(prefix="ucgverif-c04-")
+    try:
+        for cls, src in cases:
+            p = os.path.join(d, "long.ucg")
+            with open(p, "w") as f:
+                f.write(src)
+            for cmd in (["build", "long.ucg"], ["fmt", "long.ucg"]):
+                rc, out, err = core.run_ucg(cmd, cwd=d, timeout=60)
+                k = "cli-%s:%s" % (cmd[0], "exit-%s" % rc if rc in (0, 1) else "CRASH")
+                hist[k] = hist.get(k, 0) + 1
+                if rc not in (0, 1):
+                    viol.append((cls, src, "cli-" + cmd[0], "hang" if rc is None else "abort", {"abort": rc, "stderr": err.decode("utf-8", "replace")[-300:]}))
+    finally:
+        shutil.rmtree(d, ignore_errors=True)
+    return hist, viol
+
+
 def repo_sources(max_bytes):
     seen = set()
     out = []
@@ -298,7 +365,8 @@ def run(ctx):
     ctx.rule = ("every token tuple of length <= %d over the %d-token vocabulary (bare and as `let x = ...;`), every arithmetic/comparison operator "
                 "x ordered pairs of 15 edge operands, casts of 43 edge operands, ranges over 8 bounds x 8 steps (length <= 10^6), every format "
                 "template of length <= 4 over 6 characters x 0..3 arguments and the expression form, every raw text of length <= 3 over 14 "
-                "characters in 4 contexts, 16 nesting constructs at depth 1..%d, every repository .ucg file and UTF-8 fuzz-corpus entry "
+                "characters in 4 contexts, 16 nesting constructs at depth 1..%d, 35 flat constructs grown to 4 KiB (also through the real `ucg build` "
+                "and `ucg fmt` with their default stack), every repository .ucg file and UTF-8 fuzz-corpus entry "
                 "unmutated, and delete/duplicate/swap/replace-by-12-tokens at every token position of the files under the size bound. "
                 "Every input is a distinct text; non-trivial = reached the parser with a lexically valid text." % (tok_len, len(VOCAB), maxdepth))
     viols = []
@@ -332,6 +400,13 @@ def run(ctx):
         if name:
             stage_s[name] = round(time.time() - t0, 1)
 
+    long_cases = list(gen_long_flat())
+    stream(iter(long_cases), 4, 'long-flat')
+    h, v = cli_long_flat(long_cases)
+    for k, n in h.items():
+        ctx.outcome(k, n)
+    ctx.count(sum(h.values()), sum(h.values()))
+    viols.extend(v)
     stream(gen_arith(), 100, 'arith')
     stream(gen_format(), 300, 'format')
     stream(gen_raw(), 400, 'raw')
